@@ -800,3 +800,5 @@ META = {
     "convention `return <out>, <non-empty err>`.",
     "more": 'Also decided: resume_job reports success only after moving the selected job to the front of the order, which is the job bg then continues. An allocator of any shape must establish that the number it returns is not a key of the job dict. use_main_jobs may be a generator-based or a class-based context manager; in the class form the view saved at entry must be per activation (a decorator instance shared by every call and thread is reported).',
 }
+
+META["more"] += " Every job command purges finished jobs before its first read of the table (defect repaired in disown). The guard of the add_job call is 'there is a process object' plus a test quantified over every stage of the pipeline."
